@@ -2,5 +2,6 @@ SPECIFICATION Spec
 CONSTANTS
   Configs <- ConfigsSim
   Budget = 4
+  Window <- WindowAll
   Bug = "none"
 CHECK_DEADLOCK FALSE
